@@ -3,7 +3,8 @@ use crate::oracle::{sub_range, substring_bytes_str, substring_chars};
 use crate::tables::*;
 use crate::util::{extract_bytes, extract_ints, first_diff};
 use arrow_array::cast::AsArray;
-use arrow_array::{Array, ArrayRef, FixedSizeBinaryArray};
+use arrow_array::types::Int32Type;
+use arrow_array::{Array, ArrayRef, DictionaryArray, FixedSizeBinaryArray, Int32Array};
 use arrow_buffer::{Buffer, NullBuffer};
 use arrow_schema::DataType;
 use arrow_string::length::{bit_length, length};
@@ -59,6 +60,56 @@ fn group_cols(is_str: bool, table: &[Vec<u8>], full: bool) -> Vec<Col> {
     ]
 }
 
+/// bytes whose char boundaries (0, 2, 6, 8) differ from most table shapes
+pub const FOREIGN: &str = "\u{e9}\u{1D11E}\u{e9}";
+
+/// Columns whose *invisible* physical content (bytes under a null slot, unreferenced or null dictionary
+/// values) has different char boundaries than every visible row.
+fn foreign_cols(table: &[Vec<u8>]) -> Vec<Col> {
+    let n = table.len();
+    let f = FOREIGN.as_bytes();
+    let mut out = vec![];
+    // (a)/(d): null slots hiding foreign bytes
+    for kind in [Kind::Utf8, Kind::LargeUtf8, Kind::Utf8View] {
+        let mut vals: Vec<&[u8]> = vec![];
+        let mut valid = vec![];
+        let mut rows = vec![];
+        for (i, t) in table.iter().enumerate() {
+            vals.push(t);
+            valid.push(true);
+            rows.push(Some(i as u32));
+            if i % 2 == 0 {
+                vals.push(f);
+                valid.push(false);
+                rows.push(None);
+            }
+        }
+        out.push(Col { name: format!("{}/nulls-hiding-foreign-bytes", kind.name()), kind, dict: Dict::None, layout: Layout::Nulls, arr: make_plain(kind, &vals, Some(&valid)), rows, pat_dict: false, ascii: false, foreign: Some(("bytes-under-null", f.to_vec())) });
+    }
+    // (b): unreferenced dictionary value
+    {
+        let mut vals: Vec<&[u8]> = table.iter().map(|t| t.as_slice()).collect();
+        vals.push(f);
+        let keys: Vec<i32> = (0..n as i32).collect();
+        let arr: ArrayRef = Arc::new(DictionaryArray::<Int32Type>::new(Int32Array::from(keys), make_plain(Kind::Utf8, &vals, None)));
+        out.push(Col { name: "dict32:utf8/unreferenced-foreign-value".into(), kind: Kind::Utf8, dict: Dict::I32, layout: Layout::Compact, arr, rows: (0..n as u32).map(Some).collect(), pat_dict: false, ascii: false, foreign: Some(("invisible-dictionary-value", f.to_vec())) });
+    }
+    // (c): null dictionary value hiding foreign bytes, referenced by one row
+    {
+        let mut vals: Vec<&[u8]> = table.iter().map(|t| t.as_slice()).collect();
+        vals.push(f);
+        let mut valid = vec![true; n];
+        valid.push(false);
+        let mut keys: Vec<i32> = (0..n as i32).collect();
+        keys.push(n as i32);
+        let mut rows: Vec<Option<u32>> = (0..n as u32).map(Some).collect();
+        rows.push(None);
+        let arr: ArrayRef = Arc::new(DictionaryArray::<Int32Type>::new(Int32Array::from(keys), make_plain(Kind::Utf8, &vals, Some(&valid))));
+        out.push(Col { name: "dict32:utf8/null-value-hiding-foreign-bytes".into(), kind: Kind::Utf8, dict: Dict::I32, layout: Layout::Nulls, arr, rows, pat_dict: false, ascii: false, foreign: Some(("invisible-dictionary-value", f.to_vec())) });
+    }
+    out
+}
+
 /// string groups: one per byte-width shape (all rows share every char boundary, so a given
 /// (start, length) is either valid on all rows or invalid on all rows), plus the mixed column.
 pub fn build_groups(hays: &[String], bins: &[Vec<u8>]) -> Vec<Group> {
@@ -68,7 +119,9 @@ pub fn build_groups(hays: &[String], bins: &[Vec<u8>]) -> Vec<Group> {
         by_shape.entry(shape_of(h)).or_default().push(h.as_bytes().to_vec());
     }
     for (shape, table) in &by_shape {
-        groups.push(Group { name: format!("str:shape={shape}"), is_str: true, cols: group_cols(true, table, true), table: table.clone() });
+        let mut cols = group_cols(true, table, true);
+        cols.extend(foreign_cols(table));
+        groups.push(Group { name: format!("str:shape={shape}"), is_str: true, cols, table: table.clone() });
         let long: Vec<Vec<u8>> = table.iter().map(|b| [b.as_slice(), LONG_SUFFIX.as_bytes()].concat()).collect();
         groups.push(Group { name: format!("str:shape={shape}+suffix13"), is_str: true, cols: group_cols(true, &long, false), table: long });
     }
@@ -96,31 +149,46 @@ pub fn run_substring(g: &Group, gi: usize, combo: (i64, Option<u64>), coi: usize
             }
         })
         .collect();
-    let any_invalid = exp.iter().any(|e| e.is_err());
+    let table_invalid = exp.iter().any(|e| e.is_err());
     let nontrivial = g.table.iter().filter(|b| !b.is_empty()).count() as u64;
     st.add("substring", 0, nontrivial);
     let mut ref_bad = false;
     for (ci, col) in g.cols.iter().enumerate() {
         let is_ref = ci == 0;
+        // a cut inside a character of a logically visible row
+        let visible_invalid = col.rows.iter().flatten().any(|h| exp[*h as usize].is_err());
+        // ... or of physical content that no row shows
+        let foreign_invalid = col.foreign.as_ref().is_some_and(|(_, b)| substring_bytes_str(std::str::from_utf8(b).unwrap(), start, length).is_err());
+        let hidden_invalid = foreign_invalid || (table_invalid && !visible_invalid);
         let res = catch(|| substring(col.arr.as_ref(), start, length));
         st.add("substring", col.len() as u64, 0);
         let problem: Option<(String, String)> = match res {
             Err(p) => Some((p.fingerprint(), format!("panic {p:?}"))),
             Ok(Err(e)) => {
-                if any_invalid {
+                if visible_invalid {
                     st.outcome("substring:error-on-cut-inside-char");
                     None
+                } else if hidden_invalid {
+                    // identical logical input succeeds in other encodings: the error comes from bytes no row shows
+                    let cause = match (&col.foreign, col.dict) {
+                        (Some((c, _)), _) => *c,
+                        (None, Dict::None) => "bytes-under-null",
+                        (None, _) => "invisible-dictionary-value",
+                    };
+                    st.outcome(&format!("substring:error-from-{cause}"));
+                    Some((format!("error-from-{cause}"), format!("Err({e}) although every visible row is cut on char boundaries (the offending bytes are invisible: {cause})")))
                 } else {
                     Some(("unexpected-error".into(), format!("Err({e}) although every cut is on a char boundary")))
                 }
             }
-            Ok(Ok(out)) => check_bytes_out(&out, col, &exp, any_invalid, st),
+            Ok(Ok(out)) => check_bytes_out(&out, col, &exp, table_invalid || foreign_invalid, st),
         };
         if let Some((kind, detail)) = problem {
             if is_ref {
                 ref_bad = true;
             }
-            let enc = (!is_ref && !ref_bad).then(|| col.enc_class());
+            // errors caused by invisible bytes are one class each, whatever the offset width
+            let enc = (!is_ref && !ref_bad && !kind.starts_with("error-from-")).then(|| col.enc_class());
             let class = if g.is_str { "str" } else { "bin" };
             let base = match kind.as_str() {
                 "wf" => format!("wf:c20:substring:{class}"),
